@@ -2,6 +2,36 @@
 """Prints the markdown table of seeded breaks (DESIGN.md §7) from /verif/seeded/*/meta.json."""
 import json, glob, os
 ONE = {
+ 'C02-3': ('`checkCollected` flushes with the table base width instead of each check\'s width', 'commit mechanism only: every valid proof rejected'),
+ 'C02-4': ('deferred `checkCollected` registered for the native mechanism too (its guard panics)', 'natively range-checking builder only'),
+ 'C03-3': ('limb check folded into the packing loop with the outer index (`slicePub[j]`)', 'forged limb at index i with i%4 != i/4'),
+ 'C03-4': ('bit-decomposition checker with unconstrained outputs', 'bit-decomposition mechanism + forged `nBits` hint for limb + p'),
+ 'C04-3': ('query-index decomposition with unconstrained outputs (bits above the LDE size free)', 'compiled system / forged `nBits`: a round\'s openings reused for another challenge, hiding a changed selected cap entry'),
+ 'C04-4': ('parsed verifier data cached per circuit digest in the deserializer', 'second document with the same digest and another cap read in the same process'),
+ 'C07-3': ('`cLimbCopy` copies removed in `MulAdd` / `MulAddNoReduce`', 'compiled R1CS only (builder mutates MulAcc\'s first argument): Add(x,x), MulAdd(x,k,x), an addend used twice'),
+ 'C07-4': ('bit-decomposition checker with unconstrained outputs', 'bit-decomposition mechanism + forged `nBits`'),
+ 'C08-3': ('`InverseExtension` negates with native `MODULUS - x`', 'operand with second coordinate exactly 0 (result coordinate p instead of 0)'),
+ 'C08-4': ('`ExpExtension` memoised per chip, keyed by exponent only', 'two calls with the same exponent >= 3 and different bases on one chip'),
+ 'C09-3': ('sponge squeeze reads the full width (12) instead of the rate (8)', 'more than 8 outputs requested'),
+ 'C09-4': ('`ReduceHint` fast path returns (0, x) for any 64-bit x', 'non-canonical 64-bit hash input (value + p with value < 2^32-1)'),
+ 'C10-3': ('`HashNoPad` slot count `len/3+1` for the last rate chunk', 'input length > 9 with length mod 9 in {3, 6}'),
+ 'C10-4': ('package-level `*big.Int` 2^64 mutated by `big.Int.Mul` in the `HashOrNoop` shortcut', 'a 2- or 3-element leaf hashed first, any later hashing in the same process'),
+ 'C11-3': ('`GetChallenge` permutes again as soon as the output buffer empties', 'challenges drawn since the last permutation a multiple of 8, then an observation (num_challenges = 4)'),
+ 'C11-4': ('challenger created once and stored in `VerifierChip`', 'second `GetChallenges` / `Verify` on the same chip'),
+ 'C12-3': ('query-index decomposition with unconstrained outputs', 'forged `nBits`: leaf index / cap slot chosen by the prover'),
+ 'C12-4': ('short-leaf digest packed in reversed element order', 'leaf width exactly 2 or 3'),
+ 'C14-3': ('bit-decomposition checker with unconstrained outputs', 'bit-decomposition mechanism + forged `nBits` for the PoW response'),
+ 'C14-4': ('FRI chip cached per api object (second `NewChip` returns the first chip)', 'two verifier chips with different `proof_of_work_bits` in one circuit, the weaker first'),
+ 'C15-3': ('coset gate `numIntermediates = (numPoints - degree)/(degree-1)`', '(2^bits - degree) % (degree-1) != 0, e.g. (3,4), (4,5)'),
+ 'C15-4': ('BaseSum range product uses `k - limb`', 'odd base on non-honest rows'),
+ 'C17-3': ('canonicity sweep moved out of `Verify` into `VerifierCircuit.Define` only', '`CircuitFixed` (the deployed wrapper) no longer range-checks the proof'),
+ 'C17-4': ('bit-decomposition checker with unconstrained outputs', 'Plain face + forged `nBits` and limbs'),
+ 'C18-3': ('`_phantom` text stripped before matching (unanchored regexes)', '`U32ArithmeticGate { num_ops: N, _phantom: … }` bound to `ArithmeticGate`'),
+ 'C18-4': ('hiding refusal tests a field that is never copied', 'common data with `fri_params.hiding = true`'),
+ 'C19-3': ('64-bit words reduced modulo p while reading', 'document values in [p, 2^64)'),
+ 'C19-4': ('type errors inside the leaf list of a `[leaf, {siblings}]` pair are lost', 'malformed value inside an initial-tree leaf list'),
+ 'C20-3': ('leaf-width check relaxed to a salt window for every blinding oracle', 'zero appended to a blinded oracle leaf whose width is not a multiple of 3'),
+ 'C20-4': ('eval-proof count no longer compared (two loops rewritten)', 'surplus `EvalsProofs` entries in a query round'),
  'C01-3': ('selector filter loops over the gate list and clamps the group range to it', 'description whose last selector group end exceeds the number of gates'),
  'C01-4': ('commit-mode range-check widths rounded up to a multiple of 16', 'description with proof_of_work_bits 19..31 (not a multiple of 16), commit mechanism only'),
  'C05-3': ('`Inverse`: hasInv derived from the prover-supplied inverse', 'dishonest `InverseHint` returning exactly 0 for a non-zero operand'),
